@@ -102,6 +102,8 @@ func checkC11(p *Prog, r *Report) {
 		}
 		return false
 	})
+	// the stored bytes of a document are its own: hand-written wire methods of the custom proto types delegate to generated code
+	checkCustomProtoDelegation(p, r, "C11")
 	// verification-method ids (which proofs name) are rooted at the document's own DID: '<did>#…'
 	checkDidDocumentValid(p, r, func(rule, rest string) string { return rule + ":C11:" + rest })
 	didQueryRules(p, r, m, "C11", false, false, true)
